@@ -17,11 +17,11 @@ import (
 func init() {
 	core.Register(&core.Prop{
 		ID: "C16", Level: "exploration",
-		Rule: "each case draws a list of <=6 nodes (3 hash algorithms x 2 values x present/absent, nil and empty hash maps, FILE nodes, repeated purls and names, identifiers of all four kinds) and a probe node; " +
+		Rule: "each case draws a list of <=6 nodes (3 hash algorithms x 2 values x present/absent, in a third of the cases also present with an empty value, nil and empty hash maps, FILE nodes, repeated purls and names, identifiers of all four kinds) and a probe node; " +
 			"GetMatchingNode is run on 4 permutations of the list x 3 repetitions and compared with the documented rule (outcome = returned node id / nil / ambiguity error; the returned pointer must be an element of the list); " +
 			"GetNodeByID, GetNodesByName, GetNodesByIdentifier (every documented spelling of the type), GetRootNodes (list and document), GetNodesByPurlType are compared with linear filters. " +
 			"distinct = hash of (list, probe); non-trivial = probe shares a hash value or a purl with at least one node.",
-		Assumptions: []string{"no empty-string hash values (AddHash forbids them)", "unique node ids", "identifier-type spellings outside the documented table are executed but not judged"},
+		Assumptions: []string{"an algorithm whose value is the empty string is a present algorithm (it conflicts with a non-empty value); where the outcome depends on whether two empty values agree, the case is executed but not judged", "unique node ids", "identifier-type spellings outside the documented table are executed but not judged"},
 		NCases: func(tier string) int {
 			if tier == "thorough" {
 				return 2000000
@@ -50,6 +50,9 @@ func c16Node(r *rand.Rand, id string) *sbom.Node {
 		for _, a := range c16Algos {
 			if r.Intn(2) == 0 {
 				n.Hashes[a] = fmt.Sprintf("v%d", r.Intn(2))
+				if c16EmptyValues && r.Intn(4) == 0 {
+					n.Hashes[a] = "" // an algorithm that is present with an empty value (a decoded document can carry it)
+				}
 			}
 		}
 	}
@@ -74,7 +77,17 @@ func purlOf(n *sbom.Node) string {
 	return n.Identifiers[1]
 }
 
-// hashesMatchModel: both non-empty, at least one common algorithm, all common algorithms agree.
+// c16EmptyValues is set per case: hash maps may then carry algorithms whose value is the empty string.
+var c16EmptyValues bool
+
+// c16StrictAgreement decides what counts as evidence when the only agreeing common algorithms carry the empty
+// string on both sides; the statement is silent there, so such cases are evaluated under both readings and
+// judged only when the readings coincide.
+var c16StrictAgreement bool
+
+// hashesMatchModel: both non-empty, at least one common algorithm, all common algorithms agree. An algorithm is
+// common when both maps have the key (HashesMatch: "algorithms not present in the node ... are ignored"), so an
+// empty value against a non-empty one is a disagreement.
 func hashesMatchModel(a, b map[int32]string) bool {
 	if len(a) == 0 || len(b) == 0 {
 		return false
@@ -85,7 +98,9 @@ func hashesMatchModel(a, b map[int32]string) bool {
 			if v != w {
 				return false
 			}
-			common = true
+			if v != "" || !c16StrictAgreement {
+				common = true
+			}
 		}
 	}
 	return common
@@ -153,6 +168,8 @@ func ptrSet(ns []*sbom.Node) string {
 
 func c16Case(c *core.C) {
 	r := c.R
+	c16EmptyValues = c.K%3 == 2
+	c16StrictAgreement = false
 	n := r.Intn(7)
 	nl := &sbom.NodeList{}
 	for i := 0; i < n; i++ {
@@ -169,6 +186,17 @@ func c16Case(c *core.C) {
 	probe := c16Node(r, "probe")
 	det := map[string]any{"list": nl.String(), "probe": probe.String()}
 	wantID, wantKind := matchModel(nl, probe)
+	if c16EmptyValues {
+		c.Cover("hash-maps-with-empty-values")
+		c16StrictAgreement = true
+		sID, sKind := matchModel(nl, probe)
+		c16StrictAgreement = false
+		if sID != wantID || sKind != wantKind {
+			// the outcome hinges on whether "" == "" is evidence of identity: not judged
+			c.Cover("empty-only-agreement(undecided, not judged)")
+			return
+		}
+	}
 	c.Cover("match-outcome:" + wantKind)
 	nontrivial := false
 	for _, nd := range nl.Nodes {
